@@ -1,2 +1,22 @@
-(** C14 — placeholder until the splitter theorem is in place. *)
-From GoSh Require Import Base.Bytes Expand.Expand Expand.Spec.
+(** C14 — Field splitting cuts exactly at unquoted IFS characters and never inside quotes. *)
+From GoSh Require Import Base.Bytes Base.Outcome Store.Env Expand.Expand Expand.Spec Expand.SplitProofs.
+
+(** Full statement on the model: for every IFS value and every field whose unquoted text is valid
+    UTF-8, splitting, dropping the empty unquoted pieces and removing quotes gives exactly the
+    pieces obtained by cutting at every unquoted IFS character and keeping those that contain a
+    character or a quoted part ([split_spec], written from the property text).
+    Kept in full; decided on every run by the oracle on the implementation's answers and by the
+    model correspondence (exhaustive words of <= 4 (quick) / 6 (thorough) segments x 7 IFS settings). *)
+Definition C14_split_refines_spec_statement : Prop :=
+  forall e f, split_model e f = Ok (split_spec (ifs_value e) f).
+
+(** Proved so far. *)
+Theorem C14_partial_quoted_text_is_never_cut :
+  forall e f, all_quoted f = true -> f <> [] -> split_field e f = Ok [f].
+Proof. exact quoted_never_split. Qed.
+Print Assumptions C14_partial_quoted_text_is_never_cut.
+
+Theorem C14_partial_empty_ifs_disables_splitting :
+  forall e f, ifs_value e = [] -> split_field e f = Ok [f].
+Proof. exact empty_ifs_no_split. Qed.
+Print Assumptions C14_partial_empty_ifs_disables_splitting.
